@@ -64,6 +64,9 @@ func structFields(t types.Type) ([]*types.Var, bool) {
 // a value whose methods are given from outside: of a type parameter, or of an interface type
 // (other than error) with at least one method
 func isAbstractType(t types.Type) bool {
+	if _, ok := valueTypeParam(t); ok {
+		return false
+	}
 	if _, ok := t.(*types.TypeParam); ok {
 		return true
 	}
@@ -142,7 +145,7 @@ func (c *fctx) absPath(e ast.Expr) (*absRoot, string) { return absPathOf(c.f, c.
 
 // binders / arguments that stand for the abstract objects of f
 func (c *fctx) absBinders(f *fnInfo) []string {
-	var bs []string
+	bs := f.typeParamBinders()
 	for _, r := range f.abs {
 		bs = append(bs, fmt.Sprintf("(%s : Type)", r.stName()))
 		for _, m := range r.methods {
@@ -156,7 +159,7 @@ func (c *fctx) absBinders(f *fnInfo) []string {
 }
 
 func (c *fctx) absArgs(f *fnInfo) []string {
-	var as []string
+	as := f.typeParamArgs()
 	for _, r := range f.abs {
 		as = append(as, r.stName())
 		for _, m := range r.methods {
@@ -299,7 +302,7 @@ func (c *fctx) fieldVar(x *ast.SelectorExpr) (string, bool) {
 	if c.f.absOf(o) != nil {
 		return "", false
 	}
-	if _, isStruct := structFields(o.Type()); !isStruct && o != c.f.recvStruct {
+	if _, isStruct := structFields(o.Type()); !isStruct && o != c.f.recvStruct && !c.f.elemView[o] {
 		return "", false
 	}
 	fv, ok := c.info.Uses[x.Sel].(*types.Var)
@@ -667,6 +670,9 @@ func (c *fctx) callTranslated(x *ast.CallExpr, callee *fnInfo) (pre []string, te
 			c.failf(x, "call of %s, which returns a struct", callee.obj.FullName())
 		}
 	}
+	if len(callee.typeParams) > 0 {
+		c.failf(x, "call of %s, a method of a generic type", callee.obj.FullName())
+	}
 	sameRecv := c.sameRecvCall(x, callee)
 	if callee.recvStruct != nil && !sameRecv {
 		c.failf(x, "call of %s, a method of a pointer to a struct with fields (only p.M(...) for the caller's own receiver p is translated)", callee.obj.FullName())
@@ -915,6 +921,13 @@ func (c *fctx) carriedOfNodes(fr *loopFrame, nodes []ast.Node) []string {
 			o := c.info.Uses[x]
 			if o == nil {
 				o = c.info.Defs[x]
+			}
+			if v, ok := o.(*types.Var); ok && c.f.elemView[v] {
+				fs, _ := elemViewStruct(v)
+				for _, fv := range fs {
+					set[c.fieldName(v, fv)] = true
+				}
+				return
 			}
 			if v, ok := o.(*types.Var); ok {
 				if _, isG := c.pkgLevelVar(v); !isG {
@@ -1288,10 +1301,13 @@ func (t *tr) analyseExt(f *fnInfo, seen map[*fnInfo]bool) {
 				}
 				if ok {
 					f.recvStruct, f.recvFields = recv, fs
+				} else {
+					t.analyseROReceiver(f, recv, fs)
 				}
 			}
 		}
 	}
+	t.analyseElemViews(f)
 	used := map[types.Object]bool{}
 	ast.Inspect(f.decl.Body, func(n ast.Node) bool {
 		if id, ok := n.(*ast.Ident); ok {
@@ -1634,6 +1650,9 @@ var externalFns = map[string]string{
 	// uninitialised memory: the content is an oracle (at most one call per function, see dirtFn)
 	dirtFn:              "x_dirtmake_Bytes",
 	"semtest/ext.Dirty": "x_ext_Dirty",
+	// the hash function of a strmap instance (its seed, a field, is not an argument of the model)
+	modPath + "internal/hash/maphash.String": "x_maphash_String",
+	"semtest/ext.Keyed":                      "x_ext_Keyed",
 }
 
 const dirtFn = "github.com/bytedance/gopkg/lang/dirtmake.Bytes"
@@ -1657,6 +1676,9 @@ func (c *fctx) extBinders(f *fnInfo) []string {
 		sig := e.Type().(*types.Signature)
 		var parts, rts []string
 		for i := 0; i < sig.Params().Len(); i++ {
+			if extDropped[e.FullName()][i] {
+				continue
+			}
 			parts = append(parts, c.coqType(c.f.decl, sig.Params().At(i).Type()))
 		}
 		for i := 0; i < sig.Results().Len(); i++ {
@@ -1692,6 +1714,12 @@ func (c *fctx) callExternal(x *ast.CallExpr, fn *types.Func, name string) (pre [
 	}
 	var args []string
 	for i, a := range x.Args {
+		if extDropped[fn.FullName()][i] {
+			if !c.droppedArgOK(a) {
+				c.failf(a, "this argument of %s must be a field of the read-only receiver (it is not an argument of the model)", fn.Name())
+			}
+			continue
+		}
 		if c.isMutatedParam(a) {
 			c.failf(a, "argument of an external function that is stored into elsewhere")
 		}
